@@ -46,6 +46,8 @@ def generate(seed, tier="quick"):
                 op = {"id": oid, "op": "prior_sample", "size": rnd.randint(1, 6), "generate_linear": rnd.random() < 0.3, "return_logprobs": rnd.random() < 0.3}
             else:
                 op = {"id": oid, "op": "rejection_by_count", "data": 0, "N": rnd.randint(2, 12), "in_memory": rnd.random() < 0.5, "kw": {"n_linear_samples": rnd.choice([1, 2])}}
+                if not op["in_memory"]:
+                    op["kw"]["n_batches"] = rnd.randint(1, 4)  # equal batching between the twins
             ops.append(op)
             continue
         if c < 0.12:
@@ -209,6 +211,7 @@ def run(program):
             probe("twin_ops_compared")
             if why:
                 v.append(Violation(PROPERTY, "C10.twin", "C10:%s:%s:not-reproducible-under-other-schedule-or-global-state" % (op["op"], sampling.path_name(op) if op["op"] in ("rejection", "iterative", "rejection_by_count") else "-"), "%s :: op %s" % (why, op)))
+                break  # later differences are consequences of the first divergence (generator state)
         # twin used a different transport AND order?
         ta = {(m["decision"]["transport"], tuple(m["decision"]["order"])) for p in depA.pools for m in getattr(p, "map_calls", [])}
         tb = {(m["decision"]["transport"], tuple(m["decision"]["order"])) for p in depB.pools for m in getattr(p, "map_calls", [])}
@@ -272,6 +275,7 @@ def run(program):
             if why:
                 op = ra["op"]
                 v.append(Violation(PROPERTY, "C10.clone", "C10:%s:depends-on-hidden-state-outside-generator-and-inputs" % op["op"], "clone at op %d: %s :: %s" % (k, why, op)))
+                break
         res["violations"] = v
         res["schedule"] = dict(depA.decider.taken)
         res["twin_schedule"] = dict(depB.decider.taken)
